@@ -501,6 +501,12 @@ func (b *Bucket) Put(key []byte, value []byte) (err error) {
 
 	// gofail: var beforeBucketPut struct{}
 
+	// A nil value is the empty value. Store it as a non-nil empty slice so that
+	// Get and cursors do not report the key as missing (or as a nested bucket)
+	// until the transaction is committed and the value is read back from a page.
+	if value == nil {
+		value = []byte{}
+	}
 	c.node().put(newKey, newKey, value, 0, 0)
 
 	return nil
